@@ -25,6 +25,7 @@ type opt struct {
 	rounds     int
 	counts     []uint32      // request sizes of the requester (default 1, 2)
 	saveIvl    time.Duration // tso-save-interval (default 3s)
+	burst      bool          // with serial: the requests follow each other at once, no clock step and no update in between
 	serial     bool          // one driver alternates request / clock step / update round; the second thread only requests
 }
 
@@ -55,7 +56,7 @@ func scenario(o opt) *explore.Scenario {
 				func() {
 					for i, c := range counts {
 						w.Request(n1, c)
-						if o.serial && i < len(o.clocks) {
+						if o.serial && !o.burst && i < len(o.clocks) {
 							old := sched.SetMember(1)
 							vclock.Advance(o.clocks[i])
 							n1.AM.VerifAllocatorUpdaterSync()
@@ -134,6 +135,9 @@ func main() {
 	ms := time.Millisecond
 	l = append(l, scenario(opt{name: "preloaded+1h/logical-creep", ad: none, pre: 1, dev: 0, tiers: "quick", kinds: noAtomics, preload: time.Hour, saveIvl: 3 * ms, counts: big, serial: true, clocks: []time.Duration{ms, ms, ms, ms, ms}, rounds: 5}))
 	l = append(l, scenario(opt{name: "preloaded+1h/logical-creep@2", ad: none, pre: 2, dev: 0, tiers: "thorough", preload: time.Hour, saveIvl: 3 * ms, counts: big, serial: true, clocks: []time.Duration{ms, ms, ms, ms, ms}, rounds: 5}))
+	// a burst of large requests within one tick, the physical time 3 ms below the window: the
+	// logical part overflows and no update comes to extend the window
+	l = append(l, scenario(opt{name: "preloaded+1h/logical-burst", ad: none, pre: 1, dev: 0, tiers: "quick", kinds: noAtomics, preload: time.Hour, saveIvl: 3 * ms, counts: []uint32{140000, 140000, 140000, 140000, 140000, 140000, 1}, serial: true, burst: true, rounds: 1}))
 	// function-call granularity: a manual reset and the periodic update both save a window
 	setAd := tsoh.Admins()[6]
 	l = append(l, scenario(opt{name: "fn/" + setAd.Name, ad: setAd, pre: 2, dev: 0, tiers: "quick", fixedClock: 3 * time.Second, rounds: 1}))
